@@ -26,6 +26,7 @@ type Engine struct {
 	fnByKey    map[string]*ssa.Function
 	loadErrs   []string
 	interiorTypes map[string]bool
+	renamed    []string // contracts rebound to renamed functions (locals.go)
 }
 
 func loadEngine(repoDir string, specDir string) (*Engine, error) {
@@ -106,6 +107,7 @@ func loadEngine(repoDir string, specDir string) (*Engine, error) {
 			}
 		}
 	}
+	e.rebindRenamedFunctions()
 	// every contract must bind to a function
 	for _, k := range e.lib.sortedContractKeys() {
 		ct := e.lib.Contracts[k]
